@@ -14,7 +14,12 @@ RULE = ("One case = one history of the real scheduler with 1..ensembles-1 worker
         "job (fresh, own object, entropy == seed, not the scheduler's) and over the whole history "
         "(pairwise distinct across incarnations). A tripwire compares the global numpy/python RNG state "
         "around every move. Distinct = completion-order signature + exit pattern; non-trivial = several "
-        "incarnations or overlapping jobs.")
+        "incarnations or overlapping jobs. Every sixth case is an engine-class case (part b): for TurtleMD, "
+        "ASE (velocity Verlet and Langevin), LAMMPS, CP2K, GROMACS (infretis_genvel) and the plug-in engine, "
+        "velocity generation and propagation are run with a global-RNG tripwire, the result must be "
+        "reproducible from a clone of the engine stream and independent of the global state, and seeds "
+        "handed to stochastic integrators (TurtleMD integrator, LAMMPS run.inp) must equal the next draw of "
+        "the stream.")
 ASSUMPTIONS = [
     "jobs lost in a crash (submitted, never consumed) are exempt: restart equivalence (C06) requires "
     "that their replacement gets the same stream; any other coincidence of (entropy, spawn key) or "
@@ -31,6 +36,9 @@ def budget(tier):
 
 def make_case(seed, i, tier):
     rng = random.Random(seed)
+    if i % 6 == 5:
+        from checks import c07b
+        return {"seed": seed, "part": "b", "scn": c07b.gen(rng), "props": [PROP]}
     scn = SC.gen_scenario(rng, {"steps_choices": [4, 6, 10, 16], "maxlength": rng.choice([20, 40, 200]),
                                 "config_seed": rng.choice([0, 1, 5, rng.randrange(2, 2**31)])})
     kind = rng.choice(["single", "clean_chain", "clean_chain", "crash_chain", "crash_chain", "mixed", "tail"])
@@ -43,9 +51,25 @@ def monitors(case, inc):
 
 
 def run(case):
+    if case.get("part") == "b":
+        from checks import c07b
+        from sim.kernel import hash64
+        viol, info = c07b.run_engine_case(case)
+        scn = case["scn"]
+        return {"violations": viol, "trace": info["trace"], "digest": str(hash64(str(viol))),
+                "probes": {"engine_stream_cases": 1, "engine_" + scn["engine"]: 1}, "faults": {}, "stats": {},
+                "sim_time": 0.0, "ksteps": 0, "sig": "b" + str(sorted(scn.items())), "nontrivial": True,
+                "sample": {"part": "b", "seed": case["seed"], "scenario": scn}}
     res = SS.run_case(case, monitors, history_checks=C.history_c07)
     res.pop("_c07", None)
     return C.result_from(res, case)
 
 
-shrink_candidates = C.shrink_candidates
+def shrink_candidates(case):
+    if case.get("part") == "b":
+        scn = case["scn"]
+        for key, val in (("reverse", False), ("zero_momentum", False), ("maxlen", 3)):
+            if scn.get(key) != val:
+                yield dict(case, scn=dict(scn, **{key: val}))
+        return
+    yield from C.shrink_candidates(case)
